@@ -26,6 +26,7 @@ import (
 	"golang.org/x/crypto/sha3"
 
 	"github.com/consensys/gnark/verifharness/curves"
+	"github.com/consensys/gnark/verifharness/internal/adversary"
 	"github.com/consensys/gnark/verifharness/internal/ceval"
 	"github.com/consensys/gnark/verifharness/internal/circuits"
 	"github.com/consensys/gnark/verifharness/internal/cvapi"
@@ -153,6 +154,7 @@ func TestC02(t *testing.T) {
 	r.Require("rejected.options-mismatch", 3)
 	r.Require("genuine.accepted", 10)
 	r.Require("audit.keys", 3)
+	r.Require("transcript.items-bound", 50)
 	r.Finish("fault_enumeration",
 		"per curve and generated sparse system (0..2 BSB22 commitments): real Setup+Prove of 3 satisfying witnesses, then hostile triples: replayed public vectors (every change must reject: all public inputs are bound into gamma), complete enumeration of single-leaf edits (G1: neg/double/identity/generator/+generator/other leaf/donor/vk points; scalars: +-1, 0, neg, double, swap, donor), list-shape edits of ClaimedValues and Bsb22Commitments, option sets differing between prover and verifier (and equal on both: must accept), proofs made by the real prover from L,R,O columns violating exactly one gate / only a copy constraint / a public row (PostSolve hook, classified by ceval.CheckColumns), bit flips of the encodings; plus the key audit: selector columns, permutation cycles and vk commitments recomputed from the exported gates. distinct=(curve,circuit,class,edit); non-trivial = edited object differs from the genuine one and oracle says must-reject",
 		[]string{"soundness error of PLONK/KZG (~2^-250) treated as never", "SRS from test/unsafekzg (known toxic value) — soundness against an adversary knowing tau is not claimed"})
@@ -274,6 +276,9 @@ func runCircuit(r *vcore.Run, ops *cvapi.Ops, idx int) {
 
 	// ---- option sets
 	optionSets(c, pk, g)
+
+	// ---- transcript binding: what the verifier feeds to its challenge hash
+	transcriptBinding(c, pk, g)
 
 	// ---- dishonest prover
 	dishonest(c, pk, g.pub, g.sec, rng)
@@ -548,5 +553,34 @@ func dishonest(c *caseCtx, pk plonk.ProvingKey, pub, sec []*big.Int, rng *rand.R
 		}
 		r.Count("dishonest-prover.violates="+strings.Join(what, "+"), 1)
 		c.expectReject("dishonest-prover", name+"|violates="+strings.Join(what, "+"), proof, pub)
+	}
+}
+
+// transcriptBinding observes the verifier's transcript through a recording challenge hash:
+// the key's commitments, every public input and the proof's commitments must all be hashed
+// (a datum that is not bound can be changed without moving the challenges).
+func transcriptBinding(c *caseCtx, pk plonk.ProvingKey, g gen) {
+	r := c.r
+	proof, err := plonk.Prove(c.ccs, pk, g.full, backend.WithProverChallengeHashFunction(sha256.New()))
+	if err != nil {
+		r.Inconclusive("prove-for-transcript")
+		return
+	}
+	rec := adversary.NewRecordingHash(sha256.New())
+	pw, _ := g.full.Public()
+	if err, pan := verify(proof, c.vk, pw, backend.WithVerifierChallengeHashFunction(rec)); err != nil || pan != "" {
+		r.Inconclusive("verify-with-recording-hash-rejected")
+		return
+	}
+	r.Count("transcript.bytes-hashed-by-verifier", len(rec.Stream))
+	for _, it := range c.ops.PlonkBoundItems(proof, c.vk, g.pub) {
+		r.Eval(c.label+"|transcript|"+it.Name, true)
+		if !bytes.Contains(rec.Stream, it.Bytes) {
+			r.Count("transcript.ITEM-NOT-BOUND", 1)
+			r.Violation("not-bound-into-transcript/"+editKind(it.Name), it.Name+" is never written to the verifier's challenge hash: it can be changed without moving any challenge",
+				map[string]any{"curve": c.ops.Name, "circuit": c.spec.String(), "item": it.Name, "item_hex": fmt.Sprintf("%x", it.Bytes), "public": vecStr(g.pub)})
+		} else {
+			r.Count("transcript.items-bound", 1)
+		}
 	}
 }
